@@ -159,6 +159,7 @@ func init() {
 			{Target: 1, Threads: 1, PerT: 2, Subs: 0, Churn: true}, {Target: 2, Threads: 1, PerT: 1, Subs: 1, Churn: true, Sender: true}, {Target: 1, Threads: 1, PerT: 1, Subs: 0, Op: 1, Churn: true}}
 		for tgt := 0; tgt <= 3; tgt++ {
 			clean = append(clean, dlParams{Target: tgt, Msg: tgt % 3, Sender: tgt%2 == 0, Subs: tgt % 2, Threads: 1, PerT: 1, Resub: true})
+			clean = append(clean, dlParams{Target: tgt, Msg: 3, Sender: tgt%2 == 1, Subs: tgt % 2, Threads: 1, PerT: 2})
 		}
 		Register(&Job{Name: "C09/engine/targets-x-messages", Prop: "C09", Bound: 1, BoundT: 2, Budget: 40, BudgetT: 600,
 			Desc: "targets {nil, never spawned, stopped, foreign address} x messages {int, string, pointer} x sender {nil, P} x {1,2} monitors, 2 sends each, then a probe send: exactly one event per undeliverable send at every monitor, event stream intact afterwards",
@@ -175,9 +176,10 @@ func init() {
 		var far []dlParams
 		for tgt := 0; tgt <= 3; tgt++ {
 			far = append(far, dlParams{Target: tgt, Msg: tgt % 3, Subs: 4, Threads: 1, PerT: 1})
+			far = append(far, dlParams{Target: tgt, Msg: tgt % 3, Subs: 5, Threads: 1, PerT: 1})
 		}
 		Register(&Job{Name: "C09/engine/foreign-subscriber", Prop: "C09", Bound: 1, BoundT: 2, Budget: 40, BudgetT: 600, Horizon: 6000,
-			Desc: "one monitor plus a subscriber whose PID has a foreign address, on an engine without remote: finiteness and exactly-once at the live monitor",
+			Desc: "one monitor plus one or two subscribers whose PIDs have foreign addresses (two nodes), on an engine without remote: finiteness and exactly-once at the live monitor",
 			Make: func() vsched.Instance { return engDeadLetter(far) }})
 		Register(&Job{Name: "C09/engine/with-remote", Prop: "C09", Bound: 1, BoundT: 2, Budget: 40, BudgetT: 600, Horizon: 6000, Shards: 4,
 			Desc: "the same on an engine that has a remote (address is not \"local\"; outbound messages captured by a pool Remoter): local misses still dead-letter once, foreign targets are handed to the remote without event, a gone subscriber does not start a feedback loop",
